@@ -67,7 +67,7 @@ func Universe(n int) ([]Msg, Ctx) {
 			}
 		}
 	}
-	return u, Ctx{MaxSeq: uint32(n), MaxUID: u[n-1].UID}
+	return u, Ctx{MaxSeq: uint32(n), MaxUID: u[n-1].UID, Saved: [][2]uint32{{5, 40}, {77, 77}, {200, 260}}}
 }
 
 func seqSet(s string) imap.SeqSet {
@@ -101,6 +101,10 @@ func Singles() []imap.SearchCriteria {
 		p = append(p, imap.SearchCriteria{SeqNum: []imap.SeqSet{seqSet(s)}})
 		p = append(p, imap.SearchCriteria{UID: []imap.UIDSet{uidSet(s)}})
 	}
+	// the saved-result marker '$', alone and under NOT / OR
+	p = append(p, imap.SearchCriteria{UID: []imap.UIDSet{imap.SearchRes()}})
+	p = append(p, imap.SearchCriteria{Not: []imap.SearchCriteria{{UID: []imap.UIDSet{imap.SearchRes()}}}})
+	p = append(p, imap.SearchCriteria{Or: [][2]imap.SearchCriteria{{{UID: []imap.UIDSet{imap.SearchRes()}}, {Flag: []imap.Flag{imap.FlagSeen}}}}})
 	for _, d := range []time.Time{D(1, 10, 0, 0), D(1, 10, 13, 45), D(1, 15, 0, 0), D(1, 15, 22, 0), D(2, 1, 0, 0)} {
 		p = append(p, imap.SearchCriteria{Since: d}, imap.SearchCriteria{Before: d}, imap.SearchCriteria{SentSince: d}, imap.SearchCriteria{SentBefore: d})
 	}
